@@ -47,7 +47,8 @@ FC_SYNC_KEYS = {str(k) for k in range(901, 1000) if k % 7 == 0}
 
 def hint_text(key: str, world_id: str = "") -> str:
     """unique enough to identify the key (and the world) it was produced for"""
-    return f"H{key}@{world_id}" if world_id else f"H{key}"
+    # braces, percent signs and quotes on purpose: hint texts are user data and must pass through every message untouched
+    return f"H{key}@{world_id} {{Z01, Z02}} 100%s '{{0}}'" if world_id else f"H{key} {{Z01}} %d"
 
 
 def text_predicate(key: str, text: Optional[str]) -> bool:
